@@ -1,5 +1,5 @@
 import BoltonsVerif.Generated.Src_iterutils_remap
-import BoltonsVerif.C08.Model
+import BoltonsVerif.C08.SrcTieOps
 /-
 C08 — source-translator tie for the callbacks of `boltons.iterutils.remap` and for `get_path` (round 3e).
 
@@ -8,7 +8,7 @@ every run (harness/py2lean_c08.py, OBJECT-GRAPH MODE): definitions over an abstr
 duck-typed operation a field of the parameter record `PyRtC08.Ops σ V K`.
 
 This file
-  1. gives the declared operations their meaning on the heap of the C08 model (`gOps rd`: objects are `C08.Obj`,
+  1. takes the meaning of the declared operations on the heap of the C08 model from `SrcTieOps.lean` (`gOps rd`: objects are `C08.Obj`,
      the store is a `C08.Heap`; `rd` says which heap READS go to - the store itself (`gOps id`, the single Python
      heap: this instance is what the translator self-test runs against CPython) or a fixed input heap
      (`gOps (fun _ => hin)`: the model keeps the traversed graph `h` and the rebuilt graph `out` apart));
@@ -21,121 +21,6 @@ leaf-wise case analysis; nothing follows the statement order of the source.
 -/
 namespace C08
 open PyRtC08 Src.iterutils
-
-/-! ## 1. the meaning of the declared operations on the model heap -/
-
-/-- the container behind a reference (scalars and dangling references: none) -/
-def nodeOf (h : Heap) : Obj → Option Node
-  | .atom _ => none
-  | .ref id => h[id]?
-
-/-- `enumerate(seq)` -/
-def pyEnumerate (i : Nat) : List Obj → List (Key × Obj)
-  | [] => []
-  | o :: r => (.int i, o) :: pyEnumerate (i + 1) r
-
-/-- `int(seg)` on a scalar -/
-def atomToInt : Atom → Except Exc Atom
-  | .int i => .ok (.int i)
-  | .bool b => .ok (.int (if b then 1 else 0))
-  | .float t => .ok (.int (Int.tdiv t 2))
-  | .str s => match s.toInt? with
-    | some i => .ok (.int i)
-    | none => .error .ValueError
-  | .bytes b => match (String.ofList (b.map Char.ofNat)).toInt? with
-    | some i => .ok (.int i)
-    | none => .error .ValueError
-  | .none => .error .TypeError
-  | .other _ => .error .TypeError
-
-/-- `seq[i]` for an int (negative: from the end) -/
-def seqIndex (l : List Obj) (i : Int) : Except Exc Obj :=
-  if 0 ≤ i then
-    match l[i.toNat]? with
-    | some o => .ok o
-    | none => .error .IndexError
-  else if 0 ≤ (l.length : Int) + i then
-    match l[((l.length : Int) + i).toNat]? with
-    | some o => .ok o
-    | none => .error .IndexError
-  else .error .IndexError
-
-/-- `cur[seg]`: dict lookup, list / tuple index (ints and bools), `TypeError` for sets and scalars
-    (str / bytes leaves are not indexed into: outside the domain of the tie) -/
-def getitemH (h : Heap) (cur : Obj) (seg : Atom) : Except Exc Obj :=
-  match nodeOf h cur with
-  | none => .error .TypeError
-  | some nd =>
-    match nd.kind with
-    | .dict => match lookupKey seg nd.items with
-      | some o => .ok o
-      | none => .error .KeyError
-    | .set => .error .TypeError
-    | .fset => .error .TypeError
-    | _ => match seg with
-      | .int i => seqIndex (nd.items.map Prod.snd) i
-      | .bool b => seqIndex (nd.items.map Prod.snd) (if b then 1 else 0)
-      | _ => .error .TypeError
-
-def isStrBytesA : Obj → Bool
-  | .atom (.str _) => true
-  | .atom (.bytes _) => true
-  | _ => false
-
-def kindIn (h : Heap) (o : Obj) (p : Kind → Bool) : Bool :=
-  match nodeOf h o with
-  | some nd => p nd.kind
-  | none => false
-
-/-- the declared operations on the model heap; reads go to `rd s`, writes and allocations to the store `s` -/
-def gOps (rd : Heap → Heap) : Ops Heap Obj Atom where
-  getitem s cur seg := getitemH (rd s) cur seg
-  toInt := atomToInt
-  isIterable s v := isStrBytesA v || (nodeOf (rd s) v).isSome
-  isStrBytes _ v := isStrBytesA v
-  isMapping s v := kindIn (rd s) v (· == .dict)
-  isSequence s v := isStrBytesA v || kindIn (rd s) v (fun k => k == .list || k == .tuple)
-  isSet s v := kindIn (rd s) v Kind.isSet
-  newOfClass s v := match nodeOf (rd s) v with
-    | some nd => .ok (.ref s.length, s ++ [⟨nd.kind, []⟩])
-    | none => .error .Other
-  itemsView s v := match nodeOf (rd s) v with
-    | some nd => nd.items
-    | none => []
-  enumerate s v := match nodeOf (rd s) v with
-    | some nd => pyEnumerate 0 (nd.items.map Prod.snd)
-    | none => []
-  updatePairs s v items := match v with
-    | .atom _ => .error .AttributeError
-    | .ref id => match s[id]? with
-      | none => .error .AttributeError
-      | some nd => match nd.kind with
-        | .dict => .ok (s.set id ⟨.dict, dictUpdate nd.items items⟩)
-        | .set => .error .Other
-        | _ => .error .AttributeError
-  updateVals s v vals := match v with
-    | .atom _ => .error .AttributeError
-    | .ref id => match s[id]? with
-      | none => .error .AttributeError
-      | some nd => match nd.kind with
-        | .set => .ok (s.set id ⟨.set, renumber 0 (dedupBy (objEq s (s.length + 1)) (nd.items.map Prod.snd) vals)⟩)
-        | .dict => .error .Other
-        | _ => .error .AttributeError
-  extend s v vals := match v with
-    | .atom _ => .error .AttributeError
-    | .ref id => match s[id]? with
-      | none => .error .AttributeError
-      | some nd => match nd.kind with
-        | .list => .ok (s.set id ⟨.list, nd.items ++ renumber nd.items.length vals⟩)
-        | _ => .error .AttributeError
-  classOfVals s v vals := match v with
-    | .atom _ => .error .Other
-    | .ref id => match s[id]? with
-      | none => .error .Other
-      | some nd => match nd.kind with
-        | .dict => .error .Other
-        | kd => .ok (.ref s.length,
-                     s ++ [⟨kd, buildItems (objEq s (s.length + 1)) kd (vals.map fun v => (Atom.none, v))⟩])
 
 /-! ## 2. specification lemmas -/
 
